@@ -187,6 +187,7 @@ def panicJson : Option Ws.PanicKind → Json
 def worldJson (w : Ws.World) : Json :=
   Json.mkObj [
     ("frames", Json.arr (w.frames.map frameJson).toArray),
+    ("written", Json.arr (w.written.map frameJson).toArray),
     ("subs", Json.arr (w.subs.map fun s => Json.mkObj [("registered", s.registered), ("ended", s.ended), ("closes", s.closes),
         ("nexts", Json.arr (s.nexts.map fun (n : Nat) => (n : Json)).toArray), ("delivered", Json.arr (s.delivered.map fun (n : Nat) => (n : Json)).toArray)]).toArray),
     ("isClosing", w.isClosing), ("connCloses", w.connCloses), ("errChanCloses", w.errChanCloses),
@@ -204,7 +205,10 @@ def opWs (op : String) (j : Json) : Except String Json := do
       | e :: es => match Ws.stepPark f w e with
         | none => (w, some k)
         | some w' => go w' (k + 1) es
-    let (w, bad) := go Ws.init 0 evs
+    let order : List Nat := match j.getObjVal? "closeOrder" with
+      | .ok (.arr a) => a.toList.filterMap fun x => x.getNat?.toOption
+      | _ => []
+    let (w, bad) := go { Ws.init with closeOrder := order } 0 evs
     return Json.mkObj [("world", worldJson w), ("disabledAt", match bad with | some k => (k : Json) | none => Json.null)]
   | _ => throw s!"unknown op {op}"
 
